@@ -129,3 +129,12 @@ Definition spec_groupby_steps (cols:frame) (by_:list Z) (hint:bool) (ddf:frame) 
 Definition scalar_rows (l:list Z) : list (list cell) := map (fun x => [[x]]) l.
 Definition scalar_cells (l:list Z) : list cell := map (fun x => [x]) l.
 Definition uncell (c:cell) : Z := nthd 0 c 0.
+
+(* the aggregates on the integer encoding of a plain column (numeric, categorical, timestamp, fixed string) *)
+Definition agg_scalar (a:agg) (l:list Z) : Z :=
+  match a with
+  | AMin => min_spec Z.ltb 0 l
+  | AMax => max_spec Z.ltb 0 l
+  | AFirst => nthd 0 l 0
+  | ALast => nthd 0 l (len l - 1)
+  end.
